@@ -134,7 +134,7 @@ def run_in_child(idm, path, op, toks, kill_at, max_ids, seed, open_only=False):
         ag.free_run = False
         res, samples = None, []
         if not open_only:
-            ag.begin_op(0, op["k"], tc.op_now(op), op.get("collide", 0.0))
+            ag.begin_op(0, op["k"], tc.op_now(op), op.get("collide", 0.0), op.get("collide_first", 0))
             res = tc.run_op(idm, mgr, op, toks)
             samples = list(ag.samples)
         if counter["n"] == kill_at:         # after the last statement, before close
@@ -183,8 +183,8 @@ def cases(ctx, idm):
         def fill(sp_, sub_, n):
             return [{"k": "set", "id": i, "desc": f"old{j}", "t": clk.next()} for j, i in enumerate(member_ids(idm, sp_, sub_, n, rng))]
 
-        def get(desc, sp_, sub_, mx=1024, collide=0.0):
-            return {"k": "get", "desc": desc, "sp": sp_, "sub": sub_, "now": clk.next(), "mx": mx, "collide": collide}
+        def get(desc, sp_, sub_, mx=1024, collide=0.0, collide_first=0):
+            return {"k": "get", "desc": desc, "sp": sp_, "sub": sub_, "now": clk.next(), "mx": mx, "collide": collide, "collide_first": collide_first}
 
         mk("get/small-empty", [], get("X", sp, sub))
         mk("get/small-half", fill(sp, sub, max(1, size // 2)), get("X", sp, sub))
@@ -195,6 +195,8 @@ def cases(ctx, idm):
         mk("get/large-first-sample", fill(big_sp, big_sub, 3), get("X", big_sp, big_sub))
         n_big = rng.choice([40, 120])
         mk("get/large-collisions-cleanup", fill(sps["8"], Sub(0, 256), n_big), get("X", sps["8"], Sub(0, 256), mx=16, collide=rng.choice([0.9, 0.97])), max_ids=16)
+        mk("get/large-one-cleanup-then-insert", fill(sps["8"], Sub(0, 256), rng.choice([60, 255])), get("X", sps["8"], Sub(0, 256), mx=16, collide_first=8), max_ids=16)
+        mk("get/large-two-cleanups-then-insert", fill(sps["16"], Sub(5, 6), rng.choice([100, 255])), get("X", sps["16"], Sub(5, 6), mx=64, collide_first=16), max_ids=64)
         mk("get/large-all-collide-fails", fill(sps["16"], Sub(7, 8), 60), get("X", sps["16"], Sub(7, 8), mx=8, collide=1.0), max_ids=8)
         f = fill(sp, sub, 2 if size >= 2 else 1)
         mk("set/new", f, {"k": "set", "id": member_ids(idm, sps["24"], Sub(0, 256), 1, rng)[0], "desc": "Y", "t": clk.next()})
